@@ -1,14 +1,28 @@
 // Kani harnesses for crates/erbium-core/src/radv/mod.rs (C17: router advertisements carry exactly the configured
 // values in RFC format).  Every harness builds an interface configuration of CONCRETE SHAPE (which options, how many
 // prefixes/servers/domains, string lengths) with SYMBOLIC VALUES, runs the real private builder
-// RaAdvService::build_announcement_pure and the real encoder icmppkt::serialise, and decodes the bytes with the
-// decoder below, written from RFC 4861 4.2/4.6, RFC 8106 5, RFC 8781 4 and RFC 8910 2.3 (not erbium's parser).
+// RaAdvService::build_announcement_pure and the real wire encoder (icmppkt::serialise_router_advertisement, reached
+// through the helper in radv_icmppkt.rs), and decodes the bytes with the decoder below, written from RFC 4861
+// 4.2/4.6, RFC 8106 5, RFC 8781 4 and RFC 8910 2.3 (erbium's own parser is not used).
+//
+// A failed assertion ends a path, so a sequence of assert!s would hide every defect behind the first one.  The
+// field-by-field checks therefore go through `independent!`: ONE of the listed checks, chosen nondeterministically,
+// is asserted per execution - the solver decides each of them over all configurations.
 #[cfg(kani)]
 mod k {
     use super::super::*;
     use config::ConfigValue;
     use std::net::{IpAddr, Ipv4Addr, Ipv6Addr};
     use std::time::Duration;
+
+    macro_rules! independent {
+        ($( $cond:expr => $msg:literal ),+ $(,)?) => {{
+            let sel: u8 = kani::any();
+            let mut k: u8 = 0;
+            $( if sel == k { assert!($cond, $msg); } k += 1; )+
+            let _ = k;
+        }};
+    }
 
     // ---------------------------------------------------------------- RFC decoder (independent of erbium's) ----
     fn be16(b: &[u8], o: usize) -> u16 {
@@ -27,7 +41,13 @@ mod k {
         v
     }
     fn mask6(len: u8) -> u128 {
-        if len == 0 { 0 } else if len >= 128 { u128::MAX } else { u128::MAX << (128 - len as u32) }
+        if len == 0 {
+            0
+        } else if len >= 128 {
+            u128::MAX
+        } else {
+            u128::MAX << (128 - len as u32)
+        }
     }
 
     // RFC 4861 4.2 + 4.6: fixed 16-octet header (type 134, code 0), then options <type, length in units of 8 octets,
@@ -85,16 +105,12 @@ mod k {
         seen
     }
 
-    // a 32-bit seconds field: representable values exactly, larger ones clamped to 0xffffffff (= infinity).
-    // (a macro so that the check descriptions stay string literals)
-    macro_rules! check_u32_secs {
-        ($got:expr, $want:expr, $exact:literal, $clamp:literal) => {
-            if $want <= u32::MAX as u64 {
-                assert!($got as u64 == $want, $exact);
-            } else {
-                assert!($got == u32::MAX, $clamp);
-            }
-        };
+    // 32-bit seconds field: representable values exactly; larger ones clamped to 0xffffffff (= infinity)
+    fn u32_exact(got: u32, want_secs: u64) -> bool {
+        want_secs > u32::MAX as u64 || got as u64 == want_secs
+    }
+    fn u32_clamped(got: u32, want_secs: u64) -> bool {
+        want_secs <= u32::MAX as u64 || got == u32::MAX
     }
 
     // ---------------------------------------------------------------- configuration builders -------------------
@@ -156,16 +172,16 @@ mod k {
         lifetime: Duration,
     ) -> Vec<u8> {
         let adv = RaAdvService::build_announcement_pure(conf, intf, ll, mtu, self6, lifetime);
-        let msg = icmppkt::Icmp6::RtrAdvert(adv);
-        let b = icmppkt::serialise(&msg);
-        std::mem::forget(msg);
+        let b = adv.verif_serialise();
+        std::mem::forget(adv);
         b
     }
 
     // ---------------------------------------------------------------- header ------------------------------------
-    /// VERIF: {"p":"C17","tier":"quick","fns":["radv::RaAdvService::build_announcement_pure","radv::icmppkt::serialise","radv::icmppkt::serialise_router_advertisement"],"bounds":"interface with every option suppressed; hop limit (all 256), managed/other flags, router lifetime tri-state NotSpecified/DontSet/Value(v) with v = any whole number of seconds 0..2^64-1, computed default lifetime 0..=9000 s: all symbolic","oracle":"RFC 4861 4.2 decode: 16-octet message, type 134 code 0, Cur Hop Limit, M bit 0x80, O bit 0x40, 6 reserved flag bits zero, Router Lifetime = configured seconds (or the default when not a Value); a lifetime > 65535 s must be clamped (65535 or the RFC maximum 9000), never wrapped","covers":3,"unwind":20}
+    /// VERIF: {"p":"C17","tier":"quick","fns":["radv::RaAdvService::build_announcement_pure","radv::icmppkt::serialise_router_advertisement","radv::icmppkt::NDOptions::add_option"],"stubs":["<NDOptions as Default>::default -> empty option list with capacity 16 backed by a typed static array (CBMC cannot read enum discriminants back from malloc'd memory); push and iteration are the real code"],"bounds":"interface with every option suppressed; hop limit (all 256), managed/other flags, router lifetime tri-state NotSpecified/DontSet/Value(v) with v = any whole number of seconds 0..2^64-1, computed default lifetime 0..=9000 s: all symbolic","oracle":"RFC 4861 4.2 decode: 16-octet message, type 134 code 0, Cur Hop Limit, M bit 0x80, O bit 0x40, 6 reserved flag bits zero, Router Lifetime = configured seconds (or the default when not a Value); a lifetime > 65535 s must be clamped (65535 or the RFC maximum 9000), never wrapped","covers":3,"unwind":20}
     #[kani::proof]
     #[kani::unwind(20)]
+    #[kani::stub(<crate::radv::icmppkt::NDOptions as std::default::Default>::default, crate::radv::icmppkt::NDOptions::verif_typed)]
     fn c17_header_flags_hoplimit_router_lifetime() {
         let hop: u8 = kani::any();
         let managed: bool = kani::any();
@@ -183,28 +199,28 @@ mod k {
         let b = emit(&conf, &intf, None, None, Ipv6Addr::UNSPECIFIED, Duration::from_secs(dflt));
         let n = check_framing(&b);
         assert!(n == 0 && b.len() == 16, "no option configured: bare 16-octet header");
-        assert!(b[4] == hop, "Cur Hop Limit == configured hop-limit");
-        assert!((b[5] & 0x80 != 0) == managed, "M flag == managed");
-        assert!((b[5] & 0x40 != 0) == other, "O flag == other");
-        assert!(b[5] & 0x3f == 0, "reserved flag bits are zero");
         let got = be16(&b, 6) as u64;
         let want = want.as_secs();
         kani::cover!(want > 0xffff, "lifetime not representable in 16 bits");
         kani::cover!(want == 9000 && managed && !other, "representable lifetime");
         kani::cover!(matches!(intf.lifetime, ConfigValue::DontSet), "null lifetime");
-        if want <= 0xffff {
-            assert!(got == want, "Router Lifetime representable in 16 bits is encoded exactly");
-        } else {
-            assert!(got == 0xffff || got == 9000, "Router Lifetime above 65535 s is clamped, never silently wrapped");
+        independent! {
+            b[4] == hop => "Cur Hop Limit == configured hop-limit",
+            (b[5] & 0x80 != 0) == managed => "M flag == managed",
+            (b[5] & 0x40 != 0) == other => "O flag == other",
+            b[5] & 0x3f == 0 => "reserved flag bits are zero",
+            want > 0xffff || got == want => "Router Lifetime representable in 16 bits is encoded exactly",
+            want <= 0xffff || got == 0xffff || got == 9000 => "Router Lifetime above 65535 s is clamped, never silently wrapped",
         }
         std::mem::forget(b);
         std::mem::forget(intf);
         std::mem::forget(conf);
     }
 
-    /// VERIF: {"p":"C17","tier":"quick","fns":["radv::RaAdvService::build_announcement_pure","radv::icmppkt::serialise","radv::icmppkt::serialise_router_advertisement"],"bounds":"interface with every option suppressed; reachable and retransmit = any whole number of seconds 0..2^64-1 (the configuration parser only produces whole seconds)","oracle":"RFC 4861 4.2: Reachable Time and Retrans Timer are 32-bit millisecond fields = configured value * 1000; a value above 2^32-1 ms must be clamped (2^32-1, or 3,600,000 ms for Reachable Time, RFC 4861 6.2.1), never wrapped","covers":2,"unwind":20}
+    /// VERIF: {"p":"C17","tier":"quick","fns":["radv::RaAdvService::build_announcement_pure","radv::icmppkt::serialise_router_advertisement","radv::icmppkt::NDOptions::add_option"],"stubs":["<NDOptions as Default>::default -> empty option list with capacity 16 backed by a typed static array (CBMC cannot read enum discriminants back from malloc'd memory); push and iteration are the real code"],"bounds":"interface with every option suppressed; reachable and retransmit = any whole number of seconds 0..2^64-1 (the configuration parser only produces whole seconds)","oracle":"RFC 4861 4.2: Reachable Time and Retrans Timer are 32-bit millisecond fields = configured value * 1000; a value above 2^32-1 ms must be clamped (2^32-1, or 3,600,000 ms for Reachable Time, RFC 4861 6.2.1), never wrapped","covers":2,"unwind":20}
     #[kani::proof]
     #[kani::unwind(20)]
+    #[kani::stub(<crate::radv::icmppkt::NDOptions as std::default::Default>::default, crate::radv::icmppkt::NDOptions::verif_typed)]
     fn c17_header_reachable_retrans() {
         let reach: u64 = kani::any();
         let retr: u64 = kani::any();
@@ -217,17 +233,14 @@ mod k {
         assert!(n == 0 && b.len() == 16, "no option configured: bare 16-octet header");
         let want_reach = reach as u128 * 1000;
         let want_retr = retr as u128 * 1000;
-        kani::cover!(want_reach > u32::MAX as u128, "reachable time beyond 32 bits of ms");
+        let max = u32::MAX as u128;
+        kani::cover!(want_reach > max, "reachable time beyond 32 bits of ms");
         kani::cover!(want_reach == 30_000 && want_retr == 1000, "typical values");
-        if want_reach <= u32::MAX as u128 {
-            assert!(be32(&b, 8) as u128 == want_reach, "Reachable Time representable in 32 bits of ms is encoded exactly");
-        } else {
-            assert!(be32(&b, 8) == u32::MAX || be32(&b, 8) == 3_600_000, "Reachable Time above 2^32-1 ms is clamped, never silently wrapped");
-        }
-        if want_retr <= u32::MAX as u128 {
-            assert!(be32(&b, 12) as u128 == want_retr, "Retrans Timer representable in 32 bits of ms is encoded exactly");
-        } else {
-            assert!(be32(&b, 12) == u32::MAX, "Retrans Timer above 2^32-1 ms is clamped, never silently wrapped");
+        independent! {
+            want_reach > max || be32(&b, 8) as u128 == want_reach => "Reachable Time representable in 32 bits of ms is encoded exactly",
+            want_reach <= max || be32(&b, 8) == u32::MAX || be32(&b, 8) == 3_600_000 => "Reachable Time above 2^32-1 ms is clamped, never silently wrapped",
+            want_retr > max || be32(&b, 12) as u128 == want_retr => "Retrans Timer representable in 32 bits of ms is encoded exactly",
+            want_retr <= max || be32(&b, 12) == u32::MAX => "Retrans Timer above 2^32-1 ms is clamped, never silently wrapped",
         }
         std::mem::forget(b);
         std::mem::forget(intf);
@@ -265,9 +278,11 @@ mod k {
         match find_opt(&b, 5, 0) {
             Some(o) => {
                 assert!(with_mtu, "MTU option only when an MTU is to be advertised");
-                assert!(b[o + 1] == 1, "MTU option length 1 (RFC 4861 4.6.4)");
-                assert!(be16(&b, o + 2) == 0, "MTU option reserved field zero");
-                assert!(be32(&b, o + 4) == mtu, "MTU == configured MTU");
+                independent! {
+                    b[o + 1] == 1 => "MTU option length 1 (RFC 4861 4.6.4)",
+                    be16(&b, o + 2) == 0 => "MTU option reserved field zero",
+                    be32(&b, o + 4) == mtu => "MTU == configured MTU",
+                }
             }
             None => assert!(!with_mtu, "MTU option present"),
         }
@@ -276,9 +291,10 @@ mod k {
         std::mem::forget(conf);
     }
 
-    /// VERIF: {"p":"C17","tier":"quick","fns":["radv::RaAdvService::build_announcement_pure","radv::icmppkt::serialise","radv::icmppkt::serialise_router_advertisement"],"bounds":"shapes {lladdr+MTU, lladdr only, MTU only (mtu: null for the other)}; 6 link-layer octets and the 32-bit MTU symbolic; all other options suppressed","oracle":"RFC 4861 4.6.1/4.6.4 decode: options present exactly as configured, SLLAO = the 6 octets, MTU option reserved 0 and MTU value exact; framing (multiples of 8, options tile the message)","covers":1,"unwind":20}
+    /// VERIF: {"p":"C17","tier":"quick","fns":["radv::RaAdvService::build_announcement_pure","radv::icmppkt::serialise_router_advertisement","radv::icmppkt::NDOptions::add_option"],"stubs":["<NDOptions as Default>::default -> empty option list with capacity 16 backed by a typed static array (CBMC cannot read enum discriminants back from malloc'd memory); push and iteration are the real code"],"bounds":"shapes {lladdr+MTU, lladdr only, MTU only}; 6 link-layer octets and the 32-bit MTU symbolic; all other options suppressed. (The mtu tri-state itself is resolved in the async build_announcement, which Kani cannot reach; the pure builder receives Option<u32>.)","oracle":"RFC 4861 4.6.1/4.6.4 decode: options present exactly as configured, SLLAO = the 6 octets, MTU option reserved 0 and MTU value exact; framing (multiples of 8, options tile the message)","covers":1,"unwind":20}
     #[kani::proof]
     #[kani::unwind(20)]
+    #[kani::stub(<crate::radv::icmppkt::NDOptions as std::default::Default>::default, crate::radv::icmppkt::NDOptions::verif_typed)]
     fn c17_sllao_and_mtu_options() {
         match kani::any::<u8>() % 3 {
             0 => sllao_mtu(true, true),
@@ -314,22 +330,27 @@ mod k {
     }
     // RFC 4861 4.6.2 decode of the prefix information option at offset o
     fn check_prefix(b: &[u8], o: usize, p: &P) {
-        assert!(b[o] == 3 && b[o + 1] == 4, "prefix information option: type 3, length 4");
-        assert!(b[o + 2] == p.len, "Prefix Length == configured length");
-        assert!((b[o + 3] & 0x80 != 0) == p.onlink, "L flag == on-link");
-        assert!((b[o + 3] & 0x40 != 0) == p.auto, "A flag == autonomous");
-        assert!(b[o + 3] & 0x3f == 0, "prefix option Reserved1 zero");
-        check_u32_secs!(be32(b, o + 4), p.valid, "Valid Lifetime representable in 32 bits is encoded exactly", "Valid Lifetime above 2^32-1 s is clamped to 0xffffffff, never silently wrapped");
-        check_u32_secs!(be32(b, o + 8), p.pref, "Preferred Lifetime representable in 32 bits is encoded exactly", "Preferred Lifetime above 2^32-1 s is clamped to 0xffffffff, never silently wrapped");
-        assert!(be32(b, o + 12) == 0, "prefix option Reserved2 zero");
         let got = be128(b, o + 16);
-        assert!(got & mask6(p.len) == p.addr & mask6(p.len), "prefix bits within the prefix length == configured prefix");
-        assert!(got & !mask6(p.len) == 0, "prefix bits beyond the prefix length are zero (RFC 4861 4.6.2)");
+        independent! {
+            b[o] == 3 && b[o + 1] == 4 => "prefix information option: type 3, length 4",
+            b[o + 2] == p.len => "Prefix Length == configured length",
+            (b[o + 3] & 0x80 != 0) == p.onlink => "L flag == on-link",
+            (b[o + 3] & 0x40 != 0) == p.auto => "A flag == autonomous",
+            b[o + 3] & 0x3f == 0 => "prefix option Reserved1 zero",
+            u32_exact(be32(b, o + 4), p.valid) => "Valid Lifetime representable in 32 bits is encoded exactly",
+            u32_clamped(be32(b, o + 4), p.valid) => "Valid Lifetime above 2^32-1 s is clamped to 0xffffffff, never silently wrapped",
+            u32_exact(be32(b, o + 8), p.pref) => "Preferred Lifetime representable in 32 bits is encoded exactly",
+            u32_clamped(be32(b, o + 8), p.pref) => "Preferred Lifetime above 2^32-1 s is clamped to 0xffffffff, never silently wrapped",
+            be32(b, o + 12) == 0 => "prefix option Reserved2 zero",
+            got & mask6(p.len) == p.addr & mask6(p.len) => "prefix bits within the prefix length == configured prefix",
+            got & !mask6(p.len) == 0 => "prefix bits beyond the prefix length are zero (RFC 4861 4.6.2)",
+        }
     }
 
-    /// VERIF: {"p":"C17","tier":"quick","fns":["radv::RaAdvService::build_announcement_pure","radv::icmppkt::serialise","radv::icmppkt::serialise_router_advertisement"],"bounds":"one prefix: all 2^128 addresses (host bits free, as the configuration parser stores them unmasked), prefix length 0..=128, on-link/autonomous flags, valid and preferred lifetimes any whole seconds 0..2^64-1: all symbolic; other options suppressed","oracle":"RFC 4861 4.6.2 decode: type 3 length 4, prefix length, L/A flags, Reserved1/Reserved2 zero, lifetimes exact or clamped to 0xffffffff (never wrapped), prefix bits equal inside the length and zero beyond it","covers":3,"unwind":20}
+    /// VERIF: {"p":"C17","tier":"quick","fns":["radv::RaAdvService::build_announcement_pure","radv::icmppkt::serialise_router_advertisement","radv::icmppkt::NDOptions::add_option"],"stubs":["<NDOptions as Default>::default -> empty option list with capacity 16 backed by a typed static array (CBMC cannot read enum discriminants back from malloc'd memory); push and iteration are the real code"],"bounds":"one prefix: all 2^128 addresses (host bits free, as the configuration parser stores them unmasked), prefix length 0..=128, on-link/autonomous flags, valid and preferred lifetimes any whole seconds 0..2^64-1: all symbolic; other options suppressed","oracle":"RFC 4861 4.6.2 decode: type 3 length 4, prefix length, L/A flags, Reserved1/Reserved2 zero, lifetimes exact or clamped to 0xffffffff (never wrapped), prefix bits equal inside the length and zero beyond it","covers":3,"unwind":20}
     #[kani::proof]
     #[kani::unwind(20)]
+    #[kani::stub(<crate::radv::icmppkt::NDOptions as std::default::Default>::default, crate::radv::icmppkt::NDOptions::verif_typed)]
     fn c17_prefix_option_one() {
         let p = any_p();
         let conf = top(Vec::new(), Vec::new(), None);
@@ -350,9 +371,10 @@ mod k {
         std::mem::forget(conf);
     }
 
-    /// VERIF: {"p":"C17","tier":"quick","fns":["radv::RaAdvService::build_announcement_pure","radv::icmppkt::serialise","radv::icmppkt::serialise_router_advertisement"],"bounds":"two prefixes, every field of both symbolic as in c17_prefix_option_one but lifetimes restricted to 0..2^32-1 s and addresses already masked to their length (the out-of-range cases are c17_prefix_option_one's); with link-layer address and MTU options in front","oracle":"both prefixes decoded at their own option, in configuration order, each field exact; framing","covers":1,"unwind":20}
+    /// VERIF: {"p":"C17","tier":"quick","fns":["radv::RaAdvService::build_announcement_pure","radv::icmppkt::serialise_router_advertisement","radv::icmppkt::NDOptions::add_option"],"stubs":["<NDOptions as Default>::default -> empty option list with capacity 16 backed by a typed static array (CBMC cannot read enum discriminants back from malloc'd memory); push and iteration are the real code"],"bounds":"two prefixes, every field of both symbolic as in c17_prefix_option_one but lifetimes restricted to 0..2^32-1 s and addresses already masked to their length (the out-of-range cases are decided by c17_prefix_option_one); with link-layer address and MTU options in front","oracle":"both prefixes decoded at their own option, in configuration order, each field exact; framing","covers":1,"unwind":20}
     #[kani::proof]
     #[kani::unwind(20)]
+    #[kani::stub(<crate::radv::icmppkt::NDOptions as std::default::Default>::default, crate::radv::icmppkt::NDOptions::verif_typed)]
     fn c17_prefix_option_two() {
         let p0 = any_p();
         let p1 = any_p();
@@ -360,6 +382,7 @@ mod k {
         kani::assume(p1.valid <= u32::MAX as u64 && p1.pref <= u32::MAX as u64 && p1.addr & !mask6(p1.len) == 0);
         let conf = top(Vec::new(), Vec::new(), None);
         let mut intf = quiet();
+        intf.prefixes = Vec::with_capacity(2);
         intf.prefixes.push(cfg_p(&p0));
         intf.prefixes.push(cfg_p(&p1));
         let b = emit(&conf, &intf, Some(kani::any()), Some(kani::any()), Ipv6Addr::UNSPECIFIED, Duration::from_secs(0));
@@ -367,9 +390,12 @@ mod k {
         assert!(n == 4 && count_opt(&b, 3) == 2, "lladdr, MTU and exactly two prefix options");
         match (find_opt(&b, 3, 0), find_opt(&b, 3, 1)) {
             (Some(o0), Some(o1)) => {
-                check_prefix(&b, o0, &p0);
-                check_prefix(&b, o1, &p1);
                 kani::cover!(p0.len != p1.len, "two different prefixes");
+                if kani::any() {
+                    check_prefix(&b, o0, &p0);
+                } else {
+                    check_prefix(&b, o1, &p1);
+                }
             }
             _ => assert!(false, "both configured prefixes are advertised"),
         }
@@ -381,20 +407,24 @@ mod k {
     // ---------------------------------------------------------------- RDNSS (RFC 8106 5.1) ----------------------
     const DEFAULT_DNS_LIFETIME: u64 = 1800; // RFC 8106 5.1: 3 * MaxRtrAdvInterval (600 s)
 
-    // decode the RDNSS option at o: `n` addresses expected
-    fn check_rdnss<const N: usize>(b: &[u8], o: usize, want: [u128; N], configured: [u128; N], lifetime: u64) {
-        assert!(b[o] == 25 && b[o + 1] as usize == 1 + 2 * N, "RDNSS option: type 25, length 1 + 2 * number of addresses");
-        assert!(be16(b, o + 2) == 0, "RDNSS reserved field zero");
-        check_u32_secs!(be32(b, o + 4), lifetime, "RDNSS Lifetime representable in 32 bits is encoded exactly", "RDNSS Lifetime above 2^32-1 s is clamped to 0xffffffff, never silently wrapped");
-        let mut i = 0;
-        while i < N {
-            let got = be128(b, o + 8 + 16 * i);
-            if configured[i] != 0 {
-                assert!(got == want[i], "RDNSS address == configured address, in order");
-            } else {
-                assert!(got == want[i], "$self6 (::) in the server list is replaced by the interface address");
+    // decode the RDNSS option at o: N addresses expected; configured[i] == 0 means "$self6"
+    fn check_rdnss<const N: usize>(b: &[u8], o: usize, configured: [u128; N], self6: u128, lifetime: u64) {
+        independent! {
+            b[o] == 25 && b[o + 1] as usize == 1 + 2 * N => "RDNSS option: type 25, length 1 + 2 * number of addresses",
+            be16(b, o + 2) == 0 => "RDNSS reserved field zero",
+            u32_exact(be32(b, o + 4), lifetime) => "RDNSS Lifetime representable in 32 bits is encoded exactly",
+            u32_clamped(be32(b, o + 4), lifetime) => "RDNSS Lifetime above 2^32-1 s is clamped to 0xffffffff, never silently wrapped",
+        }
+        if b[o + 1] as usize == 1 + 2 * N {
+            let mut i = 0;
+            while i < N {
+                let got = be128(b, o + 8 + 16 * i);
+                independent! {
+                    configured[i] == 0 || got == configured[i] => "RDNSS address == configured address, in order",
+                    configured[i] != 0 || got == self6 => "$self6 (::) in the server list is replaced by the interface address",
+                }
+                i += 1;
             }
-            i += 1;
         }
     }
 
@@ -404,15 +434,13 @@ mod k {
         kani::assume(self6 != 0);
         let lt: u64 = kani::any();
         let (tri, want_lt) = any_tri(Duration::from_secs(lt), Duration::from_secs(DEFAULT_DNS_LIFETIME));
-        // top-level servers exist but the interface-level list overrides them
+        // a top-level server exists but the interface-level list overrides it
         let conf = top(vec![IpAddr::V6(Ipv6Addr::from(kani::any::<u128>()))], Vec::new(), None);
         let mut intf = quiet();
         let mut v = Vec::with_capacity(N);
-        let mut want = [0u128; N];
         let mut i = 0;
         while i < N {
             v.push(Ipv6Addr::from(a[i]));
-            want[i] = if a[i] == 0 { self6 } else { a[i] };
             i += 1;
         }
         intf.rdnss = ConfigValue::Value(v);
@@ -421,7 +449,7 @@ mod k {
         let n = check_framing(&b);
         assert!(n == 1 && count_opt(&b, 25) == 1, "exactly one RDNSS option");
         match find_opt(&b, 25, 0) {
-            Some(o) => check_rdnss::<N>(&b, o, want, a, want_lt.as_secs()),
+            Some(o) => check_rdnss::<N>(&b, o, a, self6, want_lt.as_secs()),
             None => assert!(false, "configured DNS servers are advertised"),
         }
         std::mem::forget(b);
@@ -429,9 +457,10 @@ mod k {
         std::mem::forget(conf);
     }
 
-    /// VERIF: {"p":"C17","tier":"quick","fns":["radv::RaAdvService::build_announcement_pure","radv::icmppkt::serialise","radv::icmppkt::serialise_router_advertisement"],"bounds":"interface-level dns-servers.addresses with 1 or 2 addresses (all 2^128 values each, including :: = $self6, which erbium.conf(5) documents as usable here), interface address any non-zero value, dns-servers.lifetime tri-state with any whole seconds 0..2^64-1; a top-level server is configured too and must be overridden","oracle":"RFC 8106 5.1 decode: type 25, length 1+2n, reserved 0, lifetime exact or clamped to 0xffffffff (default 1800 s when not a Value), addresses in order with :: replaced by the interface address","covers":2,"unwind":20}
+    /// VERIF: {"p":"C17","tier":"quick","fns":["radv::RaAdvService::build_announcement_pure","radv::icmppkt::serialise_router_advertisement","radv::icmppkt::NDOptions::add_option"],"stubs":["<NDOptions as Default>::default -> empty option list with capacity 16 backed by a typed static array (CBMC cannot read enum discriminants back from malloc'd memory); push and iteration are the real code"],"bounds":"interface-level dns-servers.addresses with 1 or 2 addresses (all 2^128 values each, including :: = $self6, which erbium.conf(5) documents as usable here), interface address any non-zero value, dns-servers.lifetime tri-state with any whole seconds 0..2^64-1; a top-level server is configured too and must be overridden","oracle":"RFC 8106 5.1 decode: type 25, length 1+2n, reserved 0, lifetime exact or clamped to 0xffffffff (default 1800 s when not a Value), addresses in order with :: replaced by the interface address","covers":2,"unwind":20}
     #[kani::proof]
     #[kani::unwind(20)]
+    #[kani::stub(<crate::radv::icmppkt::NDOptions as std::default::Default>::default, crate::radv::icmppkt::NDOptions::verif_typed)]
     fn c17_rdnss_interface_level() {
         if kani::any() {
             rdnss_intf::<1>();
@@ -442,9 +471,10 @@ mod k {
         }
     }
 
-    /// VERIF: {"p":"C17","tier":"quick","fns":["radv::RaAdvService::build_announcement_pure","radv::icmppkt::serialise","radv::icmppkt::serialise_router_advertisement"],"bounds":"interface dns-servers not specified; top-level dns-servers = [IPv4 (symbolic), IPv6 a, IPv6 b] with a, b any of 2^128 values (:: = $self6), interface address non-zero symbolic, interface-level lifetime tri-state symbolic","oracle":"RFC 8106 5.1 decode: one RDNSS option with exactly the two IPv6 servers in order, :: replaced by the interface address; the IPv4 server is not advertised","covers":2,"unwind":20}
+    /// VERIF: {"p":"C17","tier":"quick","fns":["radv::RaAdvService::build_announcement_pure","radv::icmppkt::serialise_router_advertisement","radv::icmppkt::NDOptions::add_option"],"stubs":["<NDOptions as Default>::default -> empty option list with capacity 16 backed by a typed static array (CBMC cannot read enum discriminants back from malloc'd memory); push and iteration are the real code"],"bounds":"interface dns-servers not specified; top-level dns-servers = [IPv4 (symbolic), IPv6 a, IPv6 b] with a, b any of 2^128 values (:: = $self6), interface address non-zero symbolic, interface-level lifetime tri-state symbolic","oracle":"RFC 8106 5.1 decode: one RDNSS option with exactly the two IPv6 servers in order, :: replaced by the interface address; the IPv4 server is not advertised","covers":2,"unwind":20}
     #[kani::proof]
     #[kani::unwind(20)]
+    #[kani::stub(<crate::radv::icmppkt::NDOptions as std::default::Default>::default, crate::radv::icmppkt::NDOptions::verif_typed)]
     fn c17_rdnss_top_level_default() {
         let a: [u128; 2] = kani::any();
         let self6: u128 = kani::any();
@@ -462,11 +492,10 @@ mod k {
         let b = emit(&conf, &intf, None, None, Ipv6Addr::from(self6), Duration::from_secs(0));
         let n = check_framing(&b);
         assert!(n == 1 && count_opt(&b, 25) == 1, "exactly one RDNSS option");
-        let want = [if a[0] == 0 { self6 } else { a[0] }, if a[1] == 0 { self6 } else { a[1] }];
         kani::cover!(a[0] == 0 && a[1] != 0, "$self6 first");
         kani::cover!(a[0] != 0 && a[1] != 0, "two literal servers");
         match find_opt(&b, 25, 0) {
-            Some(o) => check_rdnss::<2>(&b, o, want, a, want_lt.as_secs()),
+            Some(o) => check_rdnss::<2>(&b, o, a, self6, want_lt.as_secs()),
             None => assert!(false, "top-level DNS servers are advertised by default"),
         }
         std::mem::forget(b);
@@ -474,9 +503,10 @@ mod k {
         std::mem::forget(conf);
     }
 
-    /// VERIF: {"p":"C17","tier":"quick","fns":["radv::RaAdvService::build_announcement_pure","radv::icmppkt::serialise","radv::icmppkt::serialise_router_advertisement"],"bounds":"interface dns-servers.addresses: null (DontSet) and dns-search.domains: null, captive-portal: null, while the top level configures two IPv6 servers (symbolic), a search domain and a portal URL","oracle":"`null` suppresses the option: no RDNSS (25), DNSSL (31) or captive-portal (37) option; bare 16-octet header","covers":1,"unwind":20}
+    /// VERIF: {"p":"C17","tier":"quick","fns":["radv::RaAdvService::build_announcement_pure","radv::icmppkt::serialise_router_advertisement","radv::icmppkt::NDOptions::add_option"],"stubs":["<NDOptions as Default>::default -> empty option list with capacity 16 backed by a typed static array (CBMC cannot read enum discriminants back from malloc'd memory); push and iteration are the real code"],"bounds":"interface dns-servers.addresses: null (DontSet), dns-search.domains: null and captive-portal: null, while the top level configures two IPv6 servers (symbolic), a search domain and a portal URL; interface-level lifetimes symbolic","oracle":"null suppresses the option: no RDNSS (25), DNSSL (31) or captive-portal (37) option; bare 16-octet header","covers":1,"unwind":20}
     #[kani::proof]
     #[kani::unwind(20)]
+    #[kani::stub(<crate::radv::icmppkt::NDOptions as std::default::Default>::default, crate::radv::icmppkt::NDOptions::verif_typed)]
     fn c17_null_suppresses_options() {
         let conf = top(
             vec![IpAddr::V6(Ipv6Addr::from(kani::any::<u128>())), IpAddr::V6(Ipv6Addr::from(kani::any::<u128>()))],
@@ -488,19 +518,22 @@ mod k {
         intf.dnssl_lifetime = ConfigValue::Value(Duration::from_secs(kani::any()));
         let b = emit(&conf, &intf, None, None, Ipv6Addr::from(kani::any::<u128>()), Duration::from_secs(0));
         let n = check_framing(&b);
-        assert!(count_opt(&b, 25) == 0, "dns-servers.addresses: null suppresses RDNSS");
-        assert!(count_opt(&b, 31) == 0, "dns-search.domains: null suppresses DNSSL");
-        assert!(count_opt(&b, 37) == 0, "captive-portal: null suppresses the captive-portal option");
-        assert!(n == 0 && b.len() == 16, "nothing else is emitted");
+        independent! {
+            count_opt(&b, 25) == 0 => "dns-servers.addresses: null suppresses RDNSS",
+            count_opt(&b, 31) == 0 => "dns-search.domains: null suppresses DNSSL",
+            count_opt(&b, 37) == 0 => "captive-portal: null suppresses the captive-portal option",
+            n == 0 && b.len() == 16 => "nothing else is emitted",
+        }
         kani::cover!(true, "reached");
         std::mem::forget(b);
         std::mem::forget(intf);
         std::mem::forget(conf);
     }
 
-    /// VERIF: {"p":"C17","tier":"quick","fns":["radv::RaAdvService::build_announcement_pure","radv::icmppkt::serialise","radv::icmppkt::serialise_router_advertisement"],"bounds":"no IPv6 DNS server to advertise: (a) interface dns-servers not specified and top-level dns-servers = [one IPv4 address (symbolic)], (b) top-level list empty, (c) interface-level addresses: [] ; other options suppressed","oracle":"RFC 8106 5.1 / 5.3.1: an RDNSS option carries at least one address (Length >= 3, hosts treat a smaller Length as invalid) - with no server configured no RDNSS option is sent","covers":1,"unwind":20}
+    /// VERIF: {"p":"C17","tier":"quick","fns":["radv::RaAdvService::build_announcement_pure","radv::icmppkt::serialise_router_advertisement","radv::icmppkt::NDOptions::add_option"],"stubs":["<NDOptions as Default>::default -> empty option list with capacity 16 backed by a typed static array (CBMC cannot read enum discriminants back from malloc'd memory); push and iteration are the real code"],"bounds":"no IPv6 DNS server to advertise: (a) interface dns-servers not specified and top-level dns-servers = [one IPv4 address (symbolic)], (b) top-level list empty, (c) interface-level addresses: []; other options suppressed","oracle":"RFC 8106 5.1 / 5.3.1: an RDNSS option carries at least one address (Length >= 3, hosts treat a smaller Length as invalid) - with no server to advertise no RDNSS option is sent","covers":1,"unwind":20}
     #[kani::proof]
     #[kani::unwind(20)]
+    #[kani::stub(<crate::radv::icmppkt::NDOptions as std::default::Default>::default, crate::radv::icmppkt::NDOptions::verif_typed)]
     fn c17_rdnss_absent_without_servers() {
         let sel = kani::any::<u8>() % 3;
         let conf = if sel == 0 { top(vec![IpAddr::V4(Ipv4Addr::from(kani::any::<u32>()))], Vec::new(), None) } else { top(Vec::new(), Vec::new(), None) };
@@ -523,20 +556,26 @@ mod k {
     // to a multiple of 8) is written out by hand per shape.
     fn check_dnssl(b: &[u8], o: usize, names: &[u8], lifetime: u64) {
         let padded = (names.len() + 7) / 8 * 8;
-        assert!(b[o] == 31 && b[o + 1] as usize == 1 + padded / 8, "DNSSL option: type 31, length 1 + ceil(names/8)");
-        assert!(be16(b, o + 2) == 0, "DNSSL reserved field zero");
-        check_u32_secs!(be32(b, o + 4), lifetime, "DNSSL Lifetime representable in 32 bits is encoded exactly", "DNSSL Lifetime above 2^32-1 s is clamped to 0xffffffff, never silently wrapped");
-        let mut i = 0;
-        while i < padded {
-            let want = if i < names.len() { names[i] } else { 0 };
-            assert!(b[o + 8 + i] == want, "DNSSL names: RFC 1035 labels in configuration order, zero padded");
-            i += 1;
+        independent! {
+            b[o] == 31 && b[o + 1] as usize == 1 + padded / 8 => "DNSSL option: type 31, length 1 + ceil(names/8)",
+            be16(b, o + 2) == 0 => "DNSSL reserved field zero",
+            u32_exact(be32(b, o + 4), lifetime) => "DNSSL Lifetime representable in 32 bits is encoded exactly",
+            u32_clamped(be32(b, o + 4), lifetime) => "DNSSL Lifetime above 2^32-1 s is clamped to 0xffffffff, never silently wrapped",
+        }
+        if b[o + 1] as usize == 1 + padded / 8 {
+            let mut i = 0;
+            while i < padded {
+                let want = if i < names.len() { names[i] } else { 0 };
+                assert!(b[o + 8 + i] == want, "DNSSL names: RFC 1035 labels in configuration order, zero padded");
+                i += 1;
+            }
         }
     }
 
-    /// VERIF: {"p":"C17","tier":"quick","fns":["radv::RaAdvService::build_announcement_pure","radv::icmppkt::serialise","radv::icmppkt::serialise_router_advertisement"],"bounds":"search list shapes: interface-level [\"a.bc\",\"de\"] (top level has another list that must be overridden) and interface not specified -> top-level [\"x.yz\"]; dns-search.lifetime tri-state with any whole seconds 0..2^64-1","oracle":"RFC 8106 5.2 decode: type 31, length, reserved 0, lifetime exact or clamped (default 1800 s), names = 01 a 02 b c 00 02 d e 00 (+6 zero octets) resp. 01 x 02 y z 00 (+2 zero octets)","covers":2,"unwind":24}
+    /// VERIF: {"p":"C17","tier":"quick","fns":["radv::RaAdvService::build_announcement_pure","radv::icmppkt::serialise_router_advertisement","radv::icmppkt::NDOptions::add_option"],"stubs":["<NDOptions as Default>::default -> empty option list with capacity 16 backed by a typed static array (CBMC cannot read enum discriminants back from malloc'd memory); push and iteration are the real code"],"bounds":"search list shapes: interface-level [\"a.bc\",\"de\"] (top level has another list that must be overridden) and interface not specified -> top-level [\"x.yz\"]; dns-search.lifetime tri-state with any whole seconds 0..2^64-1","oracle":"RFC 8106 5.2 decode: type 31, length, reserved 0, lifetime exact or clamped (default 1800 s), names = 01 a 02 b c 00 02 d e 00 (+6 zero octets) resp. 01 x 02 y z 00 (+2 zero octets)","covers":2,"unwind":24}
     #[kani::proof]
     #[kani::unwind(24)]
+    #[kani::stub(<crate::radv::icmppkt::NDOptions as std::default::Default>::default, crate::radv::icmppkt::NDOptions::verif_typed)]
     fn c17_dnssl_option() {
         let lt: u64 = kani::any();
         let (tri, want_lt) = any_tri(Duration::from_secs(lt), Duration::from_secs(DEFAULT_DNS_LIFETIME));
@@ -569,9 +608,10 @@ mod k {
         std::mem::forget(conf);
     }
 
-    /// VERIF: {"p":"C17","tier":"quick","fns":["radv::RaAdvService::build_announcement_pure","radv::icmppkt::serialise","radv::icmppkt::serialise_router_advertisement"],"bounds":"no search domain configured: (a) interface dns-search not specified and top-level dns-search empty (the loader's default), (b) interface-level domains: []","oracle":"RFC 8106 5.2 / 5.3.1: a DNSSL option carries at least one domain name (Length >= 2, hosts treat a smaller Length as invalid) - with no domain configured no DNSSL option is sent","covers":1,"unwind":20}
+    /// VERIF: {"p":"C17","tier":"quick","fns":["radv::RaAdvService::build_announcement_pure","radv::icmppkt::serialise_router_advertisement","radv::icmppkt::NDOptions::add_option"],"stubs":["<NDOptions as Default>::default -> empty option list with capacity 16 backed by a typed static array (CBMC cannot read enum discriminants back from malloc'd memory); push and iteration are the real code"],"bounds":"no search domain configured: (a) interface dns-search not specified and top-level dns-search empty (the configuration loader default), (b) interface-level domains: []","oracle":"RFC 8106 5.2 / 5.3.1: a DNSSL option carries at least one domain name (Length >= 2, hosts treat a smaller Length as invalid) - with no domain configured no DNSSL option is sent","covers":1,"unwind":20}
     #[kani::proof]
     #[kani::unwind(20)]
+    #[kani::stub(<crate::radv::icmppkt::NDOptions as std::default::Default>::default, crate::radv::icmppkt::NDOptions::verif_typed)]
     fn c17_dnssl_absent_without_domains() {
         let conf = top(Vec::new(), Vec::new(), None);
         let mut intf = quiet();
@@ -589,10 +629,40 @@ mod k {
         std::mem::forget(conf);
     }
 
+    /// VERIF: {"p":"C17","tier":"quick","fns":["radv::RaAdvService::build_announcement_pure","radv::icmppkt::serialise_router_advertisement","radv::icmppkt::NDOptions::add_option"],"stubs":["<NDOptions as Default>::default -> empty option list with capacity 16 backed by a typed static array (CBMC cannot read enum discriminants back from malloc'd memory); push and iteration are the real code"],"bounds":"interface-level search list with ONE domain made of a single 64-octet label (all a); RFC 1035 2.3.4 limits a label to 63 octets, so the wire format cannot represent it","oracle":"the unrepresentable domain is rejected (no DNSSL option, or none that carries it): every label-length octet met while walking the names of an emitted DNSSL option is <= 63 (RFC 1035 3.1: the two top bits of a length octet are zero)","covers":1,"unwind":80}
+    #[kani::proof]
+    #[kani::unwind(80)]
+    #[kani::stub(<crate::radv::icmppkt::NDOptions as std::default::Default>::default, crate::radv::icmppkt::NDOptions::verif_typed)]
+    fn c17_dnssl_label_too_long() {
+        let conf = top(Vec::new(), Vec::new(), None);
+        let mut intf = quiet();
+        let label = [b'a'; 64];
+        intf.dnssl = ConfigValue::Value(vec![unsafe { String::from_utf8_unchecked(label.to_vec()) }]);
+        let b = emit(&conf, &intf, None, None, Ipv6Addr::UNSPECIFIED, Duration::from_secs(0));
+        check_framing(&b);
+        kani::cover!(true, "reached");
+        if let Some(o) = find_opt(&b, 31, 0) {
+            // walk the names: <len> <len octets> ... 0; a zero where a name would start begins the padding
+            let end = o + 8 * b[o + 1] as usize;
+            let mut p = o + 8;
+            let mut steps = 0;
+            while p < end && steps < 70 {
+                let l = b[p] as usize;
+                assert!(l <= 63, "DNSSL label length octet <= 63 (a longer label is rejected, not emitted)");
+                p += 1 + l;
+                steps += 1;
+            }
+        }
+        std::mem::forget(b);
+        std::mem::forget(intf);
+        std::mem::forget(conf);
+    }
+
     // ---------------------------------------------------------------- PREF64 (RFC 8781 4) ----------------------
-    /// VERIF: {"p":"C17","tier":"quick","fns":["radv::RaAdvService::build_announcement_pure","radv::icmppkt::serialise","radv::icmppkt::serialise_router_advertisement"],"bounds":"pref64 with prefix length in {32,40,48,56,64,96}, all 2^128 prefix values (bits beyond the length free), lifetime any whole seconds 0..2^64-1: all symbolic; other options suppressed","oracle":"RFC 8781 4 decode: type 38, length 2, PLC per table (0->96,1->64,2->56,3->48,4->40,5->32) gives the configured length, 13-bit Scaled Lifetime * 8 s = configured lifetime rounded to a multiple of 8 s (down or up) or clamped to 8191 units when above 65528 s (never wrapped), highest 96 bits of the prefix equal inside the length and zero beyond","covers":3,"unwind":20}
+    /// VERIF: {"p":"C17","tier":"quick","fns":["radv::RaAdvService::build_announcement_pure","radv::icmppkt::serialise_router_advertisement","radv::icmppkt::NDOptions::add_option"],"stubs":["<NDOptions as Default>::default -> empty option list with capacity 16 backed by a typed static array (CBMC cannot read enum discriminants back from malloc'd memory); push and iteration are the real code"],"bounds":"pref64 with prefix length in {32,40,48,56,64,96}, all 2^128 prefix values (bits beyond the length free), lifetime any whole seconds 0..2^64-1: all symbolic; other options suppressed","oracle":"RFC 8781 4 decode: type 38, length 2, PLC per table (0->96,1->64,2->56,3->48,4->40,5->32) gives the configured length, 13-bit Scaled Lifetime * 8 s = configured lifetime rounded to a multiple of 8 s (down or up) or clamped to 8191 units when above 65528 s (never wrapped), highest 96 bits of the prefix equal inside the length and zero beyond","covers":3,"unwind":20}
     #[kani::proof]
     #[kani::unwind(20)]
+    #[kani::stub(<crate::radv::icmppkt::NDOptions as std::default::Default>::default, crate::radv::icmppkt::NDOptions::verif_typed)]
     fn c17_pref64_option() {
         let plen: u8 = match kani::any::<u8>() % 6 {
             0 => 32,
@@ -615,11 +685,9 @@ mod k {
         kani::cover!(lt > 65528, "lifetime beyond 13 bits of 8 s units");
         match find_opt(&b, 38, 0) {
             Some(o) => {
-                assert!(b[o + 1] == 2, "PREF64 option length 2");
                 let w = be16(&b, o + 2);
                 let scaled = (w >> 3) as u64;
-                let plc = w & 7;
-                let dec_len: u8 = match plc {
+                let dec_len: u8 = match w & 7 {
                     0 => 96,
                     1 => 64,
                     2 => 56,
@@ -628,12 +696,6 @@ mod k {
                     5 => 32,
                     _ => 0,
                 };
-                assert!(dec_len == plen, "Prefix Length Code decodes (RFC 8781 table) to the configured NAT64 prefix length");
-                if lt <= 65528 {
-                    assert!(scaled == lt / 8 || scaled == (lt + 7) / 8, "Scaled Lifetime * 8 s == configured lifetime (to the 8 s granularity)");
-                } else {
-                    assert!(scaled == 8191, "PREF64 lifetime above 65528 s is clamped to 8191 units, never silently wrapped");
-                }
                 // highest 96 bits of the prefix
                 let mut hi: u128 = 0;
                 let mut i = 0;
@@ -642,8 +704,14 @@ mod k {
                     i += 1;
                 }
                 let got = hi << 32;
-                assert!(got & mask6(plen) == prefix & mask6(plen), "PREF64 prefix bits within the prefix length == configured prefix");
-                assert!(got & !mask6(plen) == 0, "PREF64 prefix bits beyond the prefix length are zero (RFC 8781 4)");
+                independent! {
+                    b[o + 1] == 2 => "PREF64 option length 2",
+                    dec_len == plen => "Prefix Length Code decodes (RFC 8781 table) to the configured NAT64 prefix length",
+                    lt > 65528 || scaled == lt / 8 || scaled == (lt + 7) / 8 => "Scaled Lifetime * 8 s == configured lifetime (to the 8 s granularity)",
+                    lt <= 65528 || scaled == 8191 => "PREF64 lifetime above 65528 s is clamped to 8191 units, never silently wrapped",
+                    got & mask6(plen) == prefix & mask6(plen) => "PREF64 prefix bits within the prefix length == configured prefix",
+                    got & !mask6(plen) == 0 => "PREF64 prefix bits beyond the prefix length are zero (RFC 8781 4)",
+                }
             }
             None => assert!(false, "configured NAT64 prefix is advertised"),
         }
@@ -691,9 +759,10 @@ mod k {
         std::mem::forget(conf);
     }
 
-    /// VERIF: {"p":"C17","tier":"quick","fns":["radv::RaAdvService::build_announcement_pure","radv::icmppkt::serialise","radv::icmppkt::serialise_router_advertisement"],"bounds":"captive-portal URL of 1, 5, 6, 7, 14 or 22 printable-ASCII octets (symbolic), given at interface level (overriding a different top-level URL) or inherited from the top level","oracle":"RFC 8910 2.3 decode: type 37, length = ceil((2+len)/8), URI octets equal, NUL padding only","covers":2,"unwind":36}
+    /// VERIF: {"p":"C17","tier":"quick","fns":["radv::RaAdvService::build_announcement_pure","radv::icmppkt::serialise_router_advertisement","radv::icmppkt::NDOptions::add_option"],"stubs":["<NDOptions as Default>::default -> empty option list with capacity 16 backed by a typed static array (CBMC cannot read enum discriminants back from malloc'd memory); push and iteration are the real code"],"bounds":"captive-portal URL of 1, 5, 6, 7, 14 or 22 printable-ASCII octets (symbolic), given at interface level (overriding a different top-level URL) or inherited from the top level","oracle":"RFC 8910 2.3 decode: type 37, length = ceil((2+len)/8), URI octets equal, NUL padding only","covers":2,"unwind":36}
     #[kani::proof]
     #[kani::unwind(36)]
+    #[kani::stub(<crate::radv::icmppkt::NDOptions as std::default::Default>::default, crate::radv::icmppkt::NDOptions::verif_typed)]
     fn c17_captive_portal_option() {
         let src = kani::any::<u8>() % 2;
         match kani::any::<u8>() % 6 {
@@ -709,9 +778,10 @@ mod k {
     }
 
     // ---------------------------------------------------------------- everything at once: framing --------------
-    /// VERIF: {"p":"C17","tier":"quick","fns":["radv::RaAdvService::build_announcement_pure","radv::icmppkt::serialise","radv::icmppkt::serialise_router_advertisement"],"bounds":"one advertisement with every option kind: lladdr, MTU, 2 prefixes, 2 RDNSS addresses, search list [\"a.bc\",\"de\"], PREF64 /64, 19-octet portal URL; addresses, MTU, flags symbolic, lifetimes symbolic within their wire ranges","oracle":"RFC 4861 4.6 framing: message and every option a multiple of 8 octets, no zero length, options tile the message; each option kind present exactly as often as configured (1,1,2,1,1,1,1)","covers":1,"unwind":36}
+    /// VERIF: {"p":"C17","tier":"quick","fns":["radv::RaAdvService::build_announcement_pure","radv::icmppkt::serialise_router_advertisement","radv::icmppkt::NDOptions::add_option"],"stubs":["<NDOptions as Default>::default -> empty option list with capacity 16 backed by a typed static array (CBMC cannot read enum discriminants back from malloc'd memory); push and iteration are the real code"],"bounds":"one advertisement with every option kind: lladdr, MTU, 2 prefixes, 2 RDNSS addresses, search list [\"a.bc\",\"de\"], PREF64 /64, 19-octet portal URL; addresses, MTU, flags symbolic, lifetimes symbolic within their wire ranges","oracle":"RFC 4861 4.6 framing: message and every option a multiple of 8 octets, no zero length, options tile the message; each option kind present exactly as often as configured (1,1,2,1,1,1,1); total length = sum of the RFC option sizes","covers":1,"unwind":36}
     #[kani::proof]
     #[kani::unwind(36)]
+    #[kani::stub(<crate::radv::icmppkt::NDOptions as std::default::Default>::default, crate::radv::icmppkt::NDOptions::verif_typed)]
     fn c17_all_options_framing() {
         let conf = top(Vec::new(), Vec::new(), None);
         let mut intf = quiet();
@@ -721,6 +791,7 @@ mod k {
         p0.pref &= 0xffff_ffff;
         p1.valid &= 0xffff_ffff;
         p1.pref &= 0xffff_ffff;
+        intf.prefixes = Vec::with_capacity(2);
         intf.prefixes.push(cfg_p(&p0));
         intf.prefixes.push(cfg_p(&p1));
         intf.rdnss = ConfigValue::Value(vec![Ipv6Addr::from(kani::any::<u128>()), Ipv6Addr::from(kani::any::<u128>())]);
@@ -734,12 +805,14 @@ mod k {
         intf.other = kani::any();
         let b = emit(&conf, &intf, Some(kani::any()), Some(kani::any()), Ipv6Addr::from(kani::any::<u128>()), Duration::from_secs(kani::any::<u16>() as u64));
         let n = check_framing(&b);
-        assert!(n == 8, "eight options");
-        assert!(count_opt(&b, 1) == 1 && count_opt(&b, 5) == 1, "one SLLAO, one MTU option");
-        assert!(count_opt(&b, 3) == 2, "two prefix options");
-        assert!(count_opt(&b, 25) == 1 && count_opt(&b, 31) == 1, "one RDNSS, one DNSSL option");
-        assert!(count_opt(&b, 38) == 1 && count_opt(&b, 37) == 1, "one PREF64, one captive-portal option");
-        assert!(b.len() == 16 + 8 + 8 + 64 + 40 + 24 + 16 + 24, "total length is the sum of the RFC option sizes");
+        independent! {
+            n == 8 => "eight options",
+            count_opt(&b, 1) == 1 && count_opt(&b, 5) == 1 => "one SLLAO, one MTU option",
+            count_opt(&b, 3) == 2 => "two prefix options",
+            count_opt(&b, 25) == 1 && count_opt(&b, 31) == 1 => "one RDNSS, one DNSSL option",
+            count_opt(&b, 38) == 1 && count_opt(&b, 37) == 1 => "one PREF64, one captive-portal option",
+            b.len() == 16 + 8 + 8 + 64 + 40 + 24 + 16 + 24 => "total length is the sum of the RFC option sizes",
+        }
         kani::cover!(true, "reached");
         std::mem::forget(b);
         std::mem::forget(intf);
